@@ -1,5 +1,7 @@
 package dns
 
+import "strings"
+
 // Holds a bunch of helper functions for dealing with labels.
 
 // SplitDomainName splits a name string into it's labels.
@@ -189,9 +191,49 @@ func PrevLabel(s string, n int) (i int, start bool) {
 	return 0, n > 1
 }
 
-// equal compares a and b while ignoring case. It returns true when equal otherwise false.
+// equal compares the label texts a and b (with or without their closing dot) while ignoring
+// case. The labels are equal when they denote the same octets: an octet may be written raw, as
+// \c or as \DDD, and need not be written the same way in both. It returns true when equal
+// otherwise false.
 func equal(a, b string) bool {
-	// might be lifted into API function.
+	if equalText(a, b) {
+		return true // the same text, up to case
+	}
+	if strings.IndexByte(a, '\\') < 0 && strings.IndexByte(b, '\\') < 0 {
+		return false // nothing is escaped: different texts are different labels
+	}
+	for len(a) > 0 && len(b) > 0 {
+		ca, ea, na := nextOctet(a)
+		cb, eb, nb := nextOctet(b)
+		if ca >= 'A' && ca <= 'Z' {
+			ca |= 'a' - 'A'
+		}
+		if cb >= 'A' && cb <= 'Z' {
+			cb |= 'a' - 'A'
+		}
+		// an unescaped dot closes the label, an escaped one is part of it
+		if ca != cb || ca == '.' && ea != eb {
+			return false
+		}
+		a, b = a[na:], b[nb:]
+	}
+	return len(a) == 0 && len(b) == 0
+}
+
+// nextOctet returns the octet the label text s starts with, whether it is written as an escape
+// (\c or \DDD) and how many characters of s it takes. s must not be empty.
+func nextOctet(s string) (c byte, escaped bool, n int) {
+	if s[0] != '\\' || len(s) == 1 {
+		return s[0], false, 1
+	}
+	if isDDD(s[1:]) {
+		return dddToByte(s[1:]), true, 4
+	}
+	return s[1], true, 2
+}
+
+// equalText compares a and b character by character while ignoring case.
+func equalText(a, b string) bool {
 	la := len(a)
 	lb := len(b)
 	if la != lb {
